@@ -18,6 +18,7 @@ def run(tier, seed):
     points = 0
     killed = 0
     fault_runs = 0
+    rename_fault_points = 0
     per_scen = {}
     kinds_at_kill = {}
     try:
@@ -151,9 +152,61 @@ def run(tier, seed):
                 except (pipeline.StreamError, cbor.CborError, cdns_schema.SchemaError) as x:
                     vs.append(Violation(PROP, '%s:incomplete-file-under-final-name-after-write-fault:%s' % (PROP, comp),
                                         'scenario %s: write %d to %s failed, yet %s was given its final name although it is not a complete output (%s)' % (name, k, hit, fn, x), {'case': case, 'k': k, 'file': fn}))
+        # ---- part 3: the publishing rename itself fails (EXDEV: name bind-mounted from another file system; EBUSY): nothing may be
+        #      written to the final name instead - not in a complete run, not when the process dies at any later point
+        rjobs, rdry = [], {}
+        for si, (name, case, pre_files) in enumerate(scen):
+            if si not in dry or name.split('/')[1] not in ('rot3', 'onto_existing', 'single') or (tier == 'quick' and name.split('/')[2] != '0'):
+                continue
+            comp = case['open']['comp']
+            rerr = 'EXDEV' if si % 2 else 'EBUSY'
+            d = sysutil.prepare_dir(base, 'rdry%d' % si, case, pre_files)
+            rc, res, sl, err = sysutil.sysrun(exe, case, d, {'mode': 'count', 'rename_err': rerr})
+            if rc != 0 or res is None:
+                tr = runner.triage(err, rc) or ('exit-%s' % rc, 'unknown-frame', err[-1500:])
+                vs.append(Violation(PROP, '%s:rename-failure:%s:%s' % (PROP, tr[0], tr[1]), 'scenario %s died when rename() failed with %s' % (name, rerr), {'case': case, 'report': tr[2]}))
+                continue
+            for e in sl:
+                if e['call'] in ('write', 'writev') and not e['path'].endswith('.part'):
+                    vs.append(Violation(PROP, '%s:write-not-to-part:after-failed-rename:%s' % (PROP, comp), 'scenario %s, rename() failing with %s: %s of %d bytes went to %s, not to a .part file' % (name, rerr, e['call'], e['req'], os.path.basename(e['path'])), {'case': case}))
+                    break
+            rdry[si] = rerr
+            for k in range(1, len(sl) + 1):
+                rjobs.append((si, k, rerr))
+
+        def rcrash_job(job):
+            si, k, rerr = job
+            name, case, pre_files = scen[si]
+            d = sysutil.prepare_dir(base, 'r%d_%d' % (si, k), case, pre_files)
+            rc, res, sl, err = sysutil.sysrun(exe, case, d, {'mode': 'crash', 'k': k, 'rename_err': rerr})
+            return si, k, rc, sysutil.final_files(d, case), (sl[-1] if sl else {})
+        with cf.ThreadPoolExecutor(max_workers=runner.NCPU) as ex:
+            rres = list(ex.map(rcrash_job, rjobs))
+        for si, k, rc, files, last in rres:
+            name, case, pre_files = scen[si]
+            comp = case['open']['comp']
+            if rc != 99 or not last.get('crash'):
+                continue            # the call sequence may legitimately be shorter than in the dry run
+            rename_fault_points += 1
+            before = set(pre_files.values())
+            for fn, data in files.items():
+                if fn.endswith('.part') or data in before:
+                    continue
+                ok = False
+                try:
+                    plain = pipeline.decompress(comp, data)
+                    if plain:
+                        cdns_schema.parse(plain)
+                    ok = bool(plain) or comp != 'none'
+                except (pipeline.StreamError, cbor.CborError, cdns_schema.SchemaError):
+                    ok = False
+                if not ok:
+                    vs.append(Violation(PROP, '%s:partial-file-under-final-name:after-failed-rename:%s' % (PROP, comp),
+                                        'scenario %s, rename() failing with %s, process killed before output call %d: %s exists under its final name with %d bytes, neither the file from before nor a complete output' % (name, rdry[si], k, fn, len(data)),
+                                        {'case': case, 'k': k, 'file': fn}))
     finally:
         runner.cleanup(base)
-    obs = dict(scenarios=len(scen), crash_points_enumerated=points, write_fault_runs_checked_for_partial_final_files=fault_runs, processes_killed_at_their_point=killed, output_calls_per_scenario=per_scen, call_kind_at_kill=kinds_at_kill)
+    obs = dict(scenarios=len(scen), crash_points_with_failing_rename=rename_fault_points, crash_points_enumerated=points, write_fault_runs_checked_for_partial_final_files=fault_runs, processes_killed_at_their_point=killed, output_calls_per_scenario=per_scen, call_kind_at_kill=kinds_at_kill)
     cov = dict(evaluations=points, distinct_nontrivial=killed,
                rule='for every scenario ({plain,gzip,xz} x {single output, 3 rotations, rotation onto existing names, destruction with/without buffered data}) a dry run counts the output-related calls '
                     '(write, writev, rename on the output files; interposed in the driver executable) and then one process per k in 1..N is killed immediately before its k-th call; non-trivial = the process really died at that call; '
